@@ -32,7 +32,6 @@ Definition dd_spec (doc : json) : list finding :=
 (** When do the readers raise?  Exactly when some element is individually unreadable: [readable_*] say, element by
     element, that every run has a results array, every result an extractable rule id and a locations array, every
     location the fields the reader dereferences.  (Nothing is silently skipped: a reader either raises or files all.) *)
-Definition is_some {A} (o : option A) : bool := match o with Some _ => true | None => false end.
 Definition all_arr (o : option json) (P : json -> bool) : bool :=
   match o with Some (JArr l) => forallb P l | _ => false end.
 
